@@ -233,6 +233,36 @@ func (im *inertModel) failPropagates(call *ssa.Call, g *ssa.Function) bool {
 	return true
 }
 
+// classifiesOutcome: the failure point is a call to a function that changes nothing and whose arguments are all
+// results of the call that is the change point (or constants): it only translates that call's outcome into a status
+// (e.g. keyOpOutcome(newSk, destExists)); on the failing outcome the callee — itself subject to the rule — changed nothing.
+func (im *inertModel) classifiesOutcome(m, f inertPoint) bool {
+	mc, ok := m.in.(*ssa.Call)
+	if !ok {
+		return false
+	}
+	fc, ok := f.in.(*ssa.Call)
+	if !ok || len(fc.Call.Args) == 0 {
+		return false
+	}
+	for _, g := range im.c.Callees(fc) {
+		if im.mayMut[g] {
+			return false
+		}
+	}
+	n := 0
+	for _, a := range fc.Call.Args {
+		if _, isC := a.(*ssa.Const); isC {
+			continue
+		}
+		if !inertDerives(a, mc, 0) {
+			return false
+		}
+		n++
+	}
+	return n > 0
+}
+
 func (im *inertModel) pointsOf(fn *ssa.Function) (muts, fails []inertPoint) {
 	c := im.c
 	muts = append(muts, im.muts[fn]...)
@@ -524,6 +554,9 @@ func ruleA4Inert(c *Ctx) {
 			for _, f := range fails {
 				if m.in == f.in {
 					continue // the same call: judged inside the callee
+				}
+				if im.classifiesOutcome(m, f) {
+					continue // the "failure" is a pure function of the outcome of the change point itself
 				}
 				if inertReaches(m, f) {
 					bad = append(bad, pair{m, f})
